@@ -949,6 +949,199 @@ fn ident(kind: &str, arg: &str) -> String {
     }
 }
 
+// ------------------------------------------------------------------ dispatch (C10): recording mock authenticators
+struct Beh {
+    err2: Option<ctap2::Error>,
+    err1: Option<ctap1::Error>,
+    log: Vec<String>,
+}
+fn status_from(code: u8) -> ctap2::Error {
+    // a handful of distinct errors
+    match code {
+        0x01 => ctap2::Error::InvalidCommand,
+        0x02 => ctap2::Error::InvalidParameter,
+        0x2e => ctap2::Error::NoCredentials,
+        0x31 => ctap2::Error::PinInvalid,
+        0x27 => ctap2::Error::OperationDenied,
+        0x7f => ctap2::Error::Other,
+        _ => ctap2::Error::InvalidLength,
+    }
+}
+fn mk_ga() -> ga::Response {
+    ga::ResponseBuilder {
+        credential: wa::PublicKeyCredentialDescriptor { id: Bytes::new(), key_type: HString::from("public-key") },
+        auth_data: Bytes::new(),
+        signature: Bytes::new(),
+    }
+    .build()
+}
+macro_rules! mock_impl {
+    ($name:ident, $($lb:tt)*) => {
+        struct $name(Beh);
+        impl ctap2::Authenticator for $name {
+            fn get_info(&mut self) -> gi::Response {
+                self.0.log.push("get_info".into());
+                gi::Response::default()
+            }
+            fn make_credential(&mut self, request: &mc::Request) -> ctap2::Result<mc::Response> {
+                self.0.log.push(format!("make_credential {:?}", request));
+                match self.0.err2 { Some(e) => Err(e), None => Ok(mc::ResponseBuilder { fmt: ctap2::AttestationStatementFormat::None, auth_data: Bytes::new() }.build()) }
+            }
+            fn get_assertion(&mut self, request: &ga::Request) -> ctap2::Result<ga::Response> {
+                self.0.log.push(format!("get_assertion {:?}", request));
+                match self.0.err2 { Some(e) => Err(e), None => Ok(mk_ga()) }
+            }
+            fn get_next_assertion(&mut self) -> ctap2::Result<ga::Response> {
+                self.0.log.push("get_next_assertion".into());
+                match self.0.err2 { Some(e) => Err(e), None => Ok(mk_ga()) }
+            }
+            fn reset(&mut self) -> ctap2::Result<()> {
+                self.0.log.push("reset".into());
+                match self.0.err2 { Some(e) => Err(e), None => Ok(()) }
+            }
+            fn client_pin(&mut self, request: &client_pin::Request) -> ctap2::Result<client_pin::Response> {
+                self.0.log.push(format!("client_pin {:?}", request));
+                match self.0.err2 { Some(e) => Err(e), None => Ok(client_pin::Response::default()) }
+            }
+            fn credential_management(&mut self, request: &cm::Request) -> ctap2::Result<cm::Response> {
+                self.0.log.push(format!("credential_management {:?}", request));
+                match self.0.err2 { Some(e) => Err(e), None => Ok(cm::Response::default()) }
+            }
+            fn selection(&mut self) -> ctap2::Result<()> {
+                self.0.log.push("selection".into());
+                match self.0.err2 { Some(e) => Err(e), None => Ok(()) }
+            }
+            fn vendor(&mut self, op: ctap2::VendorOperation) -> ctap2::Result<()> {
+                self.0.log.push(format!("vendor {:x}", u8::from(op)));
+                match self.0.err2 { Some(e) => Err(e), None => Ok(()) }
+            }
+            $($lb)*
+        }
+        impl ctap1::Authenticator for $name {
+            fn register(&mut self, request: &ctap1::register::Request<'_>) -> ctap1::Result<ctap1::register::Response> {
+                self.0.log.push(format!("register {:?}", request));
+                match self.0.err1 {
+                    Some(e) => Err(e),
+                    None => Ok(ctap1::register::Response { header_byte: 5, public_key: Bytes::new(), key_handle: Bytes::new(), attestation_certificate: Bytes::new(), signature: Bytes::new() }),
+                }
+            }
+            fn authenticate(&mut self, request: &ctap1::authenticate::Request<'_>) -> ctap1::Result<ctap1::authenticate::Response> {
+                self.0.log.push(format!("authenticate {:?}", request));
+                match self.0.err1 {
+                    Some(e) => Err(e),
+                    None => Ok(ctap1::authenticate::Response { user_presence: 1, count: 7, signature: Bytes::new() }),
+                }
+            }
+        }
+    };
+}
+mock_impl!(MockDefault,);
+mock_impl!(MockLb,
+    fn large_blobs(&mut self, request: &lb::Request) -> ctap2::Result<lb::Response> {
+        self.0.log.push(format!("large_blobs {:?}", request));
+        match self.0.err2 { Some(e) => Err(e), None => Ok(lb::Response::default()) }
+    }
+);
+
+fn resp2_name(r: &ctap2::Response) -> &'static str {
+    use ctap2::Response::*;
+    match r {
+        MakeCredential(_) => "MakeCredential",
+        GetAssertion(_) => "GetAssertion",
+        GetNextAssertion(_) => "GetNextAssertion",
+        GetInfo(_) => "GetInfo",
+        ClientPin(_) => "ClientPin",
+        Reset => "Reset",
+        Selection => "Selection",
+        CredentialManagement(_) => "CredentialManagement",
+        LargeBlobs(_) => "LargeBlobs",
+        Vendor => "Vendor",
+        _ => "unknown",
+    }
+}
+
+fn expected_param(r: &ctap2::Request) -> String {
+    use ctap2::Request::*;
+    match r {
+        MakeCredential(x) => format!("make_credential {:?}", x),
+        GetAssertion(x) => format!("get_assertion {:?}", x),
+        ClientPin(x) => format!("client_pin {:?}", x),
+        CredentialManagement(x) => format!("credential_management {:?}", x),
+        LargeBlobs(x) => format!("large_blobs {:?}", x),
+        GetNextAssertion => "get_next_assertion".into(),
+        GetInfo => "get_info".into(),
+        Reset => "reset".into(),
+        Selection => "selection".into(),
+        Vendor(op) => format!("vendor {:x}", u8::from(*op)),
+        _ => "?".into(),
+    }
+}
+
+fn dispatch2(entry: &str, beh: &str, lb_override: &str, data: &[u8]) -> String {
+    use ctap2::Authenticator;
+    use ctap_types::Rpc;
+    let req = match ctap2::Request::deserialize(data) {
+        Ok(r) => r,
+        Err(e) => return format!("undecodable {:02x}", e as u8),
+    };
+    let err2 = beh.strip_prefix("err:").map(|c| status_from(u8::from_str_radix(c, 16).unwrap_or(0)));
+    let b = Beh { err2, err1: None, log: vec![] };
+    let (res, log) = if lb_override == "1" {
+        let mut m = MockLb(b);
+        let r = if entry == "rpc" { Rpc::call(&mut m, &req) } else { m.call_ctap2(&req) };
+        (r, m.0.log)
+    } else {
+        let mut m = MockDefault(b);
+        let r = if entry == "rpc" { Rpc::call(&mut m, &req) } else { m.call_ctap2(&req) };
+        (r, m.0.log)
+    };
+    let names: Vec<&str> = log.iter().map(|l| l.split(' ').next().unwrap_or("")).collect();
+    let same = log.iter().all(|l| *l == expected_param(&req));
+    let r = match &res {
+        Ok(r) => format!("ok:{}", resp2_name(r)),
+        Err(e) => format!("err:{:x}", *e as u8),
+    };
+    format!("log={} result={} same={}", names.join(","), r, same)
+}
+
+fn dispatch1(entry: &str, beh: &str, raw: &[u8]) -> String {
+    use ctap1::Authenticator;
+    use ctap_types::Rpc;
+    let view = match iso7816::command::CommandView::try_from(raw) {
+        Ok(v) => v,
+        Err(e) => return format!("apduerr {:?}", e),
+    };
+    let req = match ctap1::Request::try_from(view) {
+        Ok(r) => r,
+        Err(e) => return format!("unconvertible {:?}", e),
+    };
+    let err1 = if beh.starts_with("err:") {
+        Some(match &beh[4..] {
+            "6985" => ctap1::Error::ConditionsOfUseNotSatisfied,
+            "6a80" => ctap1::Error::IncorrectDataParameter,
+            _ => ctap1::Error::UnspecifiedCheckingError,
+        })
+    } else {
+        None
+    };
+    let mut m = MockDefault(Beh { err2: None, err1, log: vec![] });
+    let res = if entry == "rpc" { Rpc::call(&mut m, &req) } else { m.call_ctap1(&req) };
+    let names: Vec<&str> = m.0.log.iter().map(|l| l.split(' ').next().unwrap_or("")).collect();
+    let expected = match &req {
+        ctap1::Request::Register(r) => format!("register {:?}", r),
+        ctap1::Request::Authenticate(a) => format!("authenticate {:?}", a),
+        ctap1::Request::Version => String::new(),
+    };
+    let same = m.0.log.iter().all(|l| *l == expected);
+    let r = match &res {
+        Ok(ctap1::Response::Register(_)) => "ok:Register".to_string(),
+        Ok(ctap1::Response::Authenticate(_)) => "ok:Authenticate".to_string(),
+        Ok(ctap1::Response::Version(v)) => format!("ok:Version:{}", hex(v)),
+        Err(e) => format!("err:{:?}", e),
+    };
+    format!("log={} result={} same={}", names.join(","), r, same)
+}
+
 fn run(op: &str, a: &[&str]) -> String {
     match (op, a.len()) {
         ("dec2", 1) => {
@@ -995,6 +1188,8 @@ fn run(op: &str, a: &[&str]) -> String {
             }
         }
         ("ident", 2) => ident(a[0], a[1]),
+        ("dispatch2", 4) => dispatch2(a[0], a[1], a[2], &unhex(a[3])),
+        ("dispatch1", 3) => dispatch1(a[0], a[1], &unhex(a[2])),
         ("optab", 1) => optab(u8::from_str_radix(a[0], 16).unwrap_or(0)),
         _ => "unknown-op".into(),
     }
